@@ -3,6 +3,7 @@ package main
 import (
 	"fmt"
 	"go/token"
+	"go/types"
 	"strings"
 
 	"golang.org/x/tools/go/ssa"
@@ -337,7 +338,30 @@ func c07Collect(c *Ctx, p *Prog, m *Model) {
 				}
 			}
 		}
-		if nAppend < 2 {
+		// both key kinds are recognised (in fromCtx or a private helper of it)
+		hasStr, hasStringer := false, false
+		_, region := newTermEval(p).callsOf(fc, privateHelper(p))
+		for g := range region {
+			for _, b := range g.Blocks {
+				for _, in := range b.Instrs {
+					ta, ok := in.(*ssa.TypeAssert)
+					if !ok {
+						continue
+					}
+					if bt, ok := ta.AssertedType.Underlying().(*types.Basic); ok && bt.Kind() == types.String {
+						hasStr = true
+					}
+					if it, ok := ta.AssertedType.Underlying().(*types.Interface); ok {
+						for i := 0; i < it.NumMethods(); i++ {
+							if it.Method(i).Name() == "String" {
+								hasStringer = true
+							}
+						}
+					}
+				}
+			}
+		}
+		if nAppend < 1 || !hasStr || !hasStringer {
 			probs = append(probs, "string and Stringer keys are not both handled")
 		}
 		r.Check(len(probs) == 0, "R07.5", "fromCtx", p.FuncPos(fc), "appends a (key, ctx.Value(key)) pair per registered string/Stringer key present in the context", strings.Join(probs, "; "))
@@ -376,10 +400,25 @@ func c07Sort(c *Ctx, p *Prog, m *Model) {
 	}
 	stable := map[string]bool{"slices.SortStableFunc": true, "sort.SliceStable": true, "sort.Stable": true}
 	unstable := map[string]bool{"slices.SortFunc": true, "sort.Slice": true, "sort.Sort": true, "slices.Sort": true}
-	var sortCall, dedupeCall ssa.CallInstruction
+	// the member-list emitter and the private helpers it is cut into
+	te := newTermEval(p)
+	te.noInline = func(f *ssa.Function) bool { return strings.HasPrefix(nm(f), "dedupeSlice") }
+	ph := privateHelper(p)
+	sites, region := te.callsOf(sa, func(f *ssa.Function) bool { return ph(f) && !strings.HasPrefix(nm(f), "dedupeSlice") })
+	var sortCall, dedupeCall *CallSite
 	var cmpFn, eqFn *ssa.Function
-	for _, cs := range callsIn(sa) {
-		cal := calleeOf(cs)
+	fnOf := func(v ssa.Value) *ssa.Function {
+		switch x := v.(type) {
+		case *ssa.MakeClosure:
+			return x.Fn.(*ssa.Function)
+		case *ssa.Function:
+			return x
+		}
+		return nil
+	}
+	for i := range sites {
+		cs := sites[i]
+		cal := calleeOf(cs.Instr)
 		if cal == nil {
 			continue
 		}
@@ -388,26 +427,24 @@ func c07Sort(c *Ctx, p *Prog, m *Model) {
 		if i := strings.Index(base, "["); i > 0 {
 			base = base[:i]
 		}
-		if stable[base] || unstable[base] {
-			sortCall = cs
-			if unstable[base] {
-				r.Bad("R07.3", "sort:stability", p.Pos(instrPos(cs)), "%s is not a stable sort: among attributes with equal keys the later one is no longer guaranteed to win the de-duplication (manifests above 12 elements)", base)
-			} else {
-				r.Ok("R07.3", "sort:stability", p.Pos(instrPos(cs)), "%s keeps equal keys in their original order", base)
-			}
-			if mc, ok := cs.Common().Args[len(cs.Common().Args)-1].(*ssa.MakeClosure); ok {
-				cmpFn = mc.Fn.(*ssa.Function)
-			} else if f, ok := cs.Common().Args[len(cs.Common().Args)-1].(*ssa.Function); ok {
-				cmpFn = f
+		if o := origin(cal).Object(); o != nil {
+			if a, ok := aliasOf[o]; ok && cal.Pkg == p.Slog {
+				base = a
 			}
 		}
-		if base == "dedupeSlice" {
-			dedupeCall = cs
-			if mc, ok := cs.Common().Args[1].(*ssa.MakeClosure); ok {
-				eqFn = mc.Fn.(*ssa.Function)
-			} else if f, ok := cs.Common().Args[1].(*ssa.Function); ok {
-				eqFn = f
+		args := cs.Instr.Common().Args
+		if stable[base] || unstable[base] {
+			sortCall = &sites[i]
+			if unstable[base] {
+				r.Bad("R07.3", "sort:stability", p.Pos(instrPos(cs.Instr)), "%s is not a stable sort: among attributes with equal keys the later one is no longer guaranteed to win the de-duplication (manifests above 12 elements)", base)
+			} else {
+				r.Ok("R07.3", "sort:stability", p.Pos(instrPos(cs.Instr)), "%s keeps equal keys in their original order", base)
 			}
+			cmpFn = fnOf(args[len(args)-1])
+		}
+		if base == "dedupeSlice" {
+			dedupeCall = &sites[i]
+			eqFn = fnOf(args[1])
 		}
 	}
 	if sortCall == nil {
@@ -458,16 +495,33 @@ func c07Sort(c *Ctx, p *Prog, m *Model) {
 	}
 	// order and data flow: sort precedes dedupe; dedupe gets the sorted slice; the loop ranges over the result
 	if sortCall != nil && dedupeCall != nil {
-		ok := after(sortCall, dedupeCall) && !after(dedupeCall, sortCall) && strip(sortCall.Common().Args[0]) == strip(dedupeCall.Common().Args[0])
-		r.Check(ok, "R07.4", "order:sort-then-dedupe", p.Pos(instrPos(dedupeCall)), "the same slice is sorted and then de-duplicated", "de-duplication does not run after the sort on the same slice")
+		sortedT := te.eval(sortCall.Instr.Common().Args[0], sortCall.Ctx)
+		dedupT := te.eval(dedupeCall.Instr.Common().Args[0], dedupeCall.Ctx)
+		var kvps *ssa.Parameter
+		for _, q := range sa.Params {
+			if typeName(q.Type()) == "Attrs" {
+				kvps = q
+			}
+		}
+		ok := orderedBefore(*sortCall, *dedupeCall) && sortedT.String() == dedupT.String() && kvps != nil && sortedT.isParam(kvps)
+		r.Check(ok, "R07.4", "order:sort-then-dedupe", p.Pos(instrPos(dedupeCall.Instr)), "the member list given is sorted and then de-duplicated", fmt.Sprintf("de-duplication does not run after the sort on the member list given (sorted: %s, de-duplicated: %s)", sortedT, dedupT))
 		ranged := false
 		for _, b := range sa.Blocks {
 			for _, in := range b.Instrs {
 				if ia, ok := in.(*ssa.IndexAddr); ok && inLoop(b) {
-					for _, s := range sources(ia.X) {
-						if s == dedupeCall.Value() {
-							ranged = true
+					all, has := true, false
+					for _, alt := range te.eval(ia.X, nil).alts() {
+						switch {
+						case alt.Op == "call" && strings.HasPrefix(alt.Name, "dedupeSlice"):
+							has = true
+						case kvps != nil && alt.isParam(kvps):
+							// the list as given: an alternative only under the constructor switch (checked below)
+						default:
+							all = false
 						}
+					}
+					if all && has {
+						ranged = true
 					}
 				}
 			}
@@ -475,11 +529,12 @@ func c07Sort(c *Ctx, p *Prog, m *Model) {
 		r.Check(ranged, "R07.4", "emit:ranges-over-result", p.FuncPos(sa), "the members printed are the de-duplicated result", "the loop that prints the members does not range over the de-duplicated slice")
 		// guarded only by the constructor constant
 		var gs []string
-		for _, g := range guardsOf(sortCall.Block()) {
+		for _, g := range sortCall.guards() {
 			gs = append(gs, m.guardDesc(g))
 		}
+		gs = dedupStr(gs)
 		okG := len(gs) == 0 || (len(gs) == 1 && gs[0] == "T:PrintCtx.dedupeAttrs")
-		r.Check(okG, "R07.4", "sort:unconditional", p.Pos(instrPos(sortCall)), "sorting depends at most on the constructor constant dedupeAttrs", fmt.Sprintf("sorting is conditional on %v", gs))
+		r.Check(okG, "R07.4", "sort:unconditional", p.Pos(instrPos(sortCall.Instr)), "sorting depends at most on the constructor constant dedupeAttrs", fmt.Sprintf("sorting is conditional on %v", gs))
 		if len(gs) == 1 {
 			// dedupeAttrs is stored only by the constructor, with true
 			bad := ""
@@ -509,7 +564,7 @@ func c07Sort(c *Ctx, p *Prog, m *Model) {
 	}
 	// who-may-emit: Key() results reach key emission only in serializeAttrs (and the kvp serializer)
 	for _, fn := range p.RepoFuncs() {
-		if fn.Pkg != p.Slog || fn == sa || fn.Parent() == sa {
+		if fn.Pkg != p.Slog || fn == sa || fn.Parent() == sa || fn == cmpFn || fn == eqFn || region[fn] {
 			continue
 		}
 		for _, cs := range callsIn(fn) {
@@ -530,50 +585,181 @@ func c07Sort(c *Ctx, p *Prog, m *Model) {
 		return
 	}
 	x, cmp := dd.Params[0], dd.Params[1]
-	var eqStore, neStore *ssa.Store
-	var eqGuardOK bool
-	for _, b := range dd.Blocks {
-		for _, in := range b.Instrs {
-			st, ok := in.(*ssa.Store)
+	// The loop compares the current element E (x[i], i from 1; or the element of a range over x[1:]) with the
+	// kept element K = x[j] (j from 0). Along every path from the comparison back to the loop head:
+	//   equal     -> E is stored into slot j and j stays          (the later element wins)
+	//   not equal -> E is stored into slot j+1 and j becomes j+1  (a new key is kept)
+	elemOf := func(v ssa.Value) (low int64, idx ssa.Value, ok bool) {
+		u, isU := v.(*ssa.UnOp)
+		if !isU || u.Op != token.MUL {
+			return 0, nil, false
+		}
+		ia, isIA := u.X.(*ssa.IndexAddr)
+		if !isIA {
+			return 0, nil, false
+		}
+		if ia.X == ssa.Value(x) {
+			return 0, ia.Index, true
+		}
+		if sl, isS := ia.X.(*ssa.Slice); isS && sl.X == ssa.Value(x) && sl.High == nil {
+			if sl.Low == nil {
+				return 0, ia.Index, true
+			}
+			if l, isC := constInt(sl.Low); isC {
+				return l, ia.Index, true
+			}
+		}
+		return 0, nil, false
+	}
+	isRangeIdx := func(v ssa.Value) bool {
+		bo, ok := v.(*ssa.BinOp)
+		if !ok || bo.Op != token.ADD {
+			return false
+		}
+		one, isC := constInt(bo.Y)
+		return isC && one == 1 && startsAt(bo.X, -1)
+	}
+	sameElem := func(a, b ssa.Value) bool {
+		if a == b {
+			return true
+		}
+		ua, ok1 := a.(*ssa.UnOp)
+		ub, ok2 := b.(*ssa.UnOp)
+		if !ok1 || !ok2 {
+			return false
+		}
+		ia, ok1 := ua.X.(*ssa.IndexAddr)
+		ib, ok2 := ub.X.(*ssa.IndexAddr)
+		return ok1 && ok2 && ia.X == ib.X && ia.Index == ib.Index
+	}
+	var cmpCall *ssa.Call
+	for _, cs := range callsIn(dd) {
+		if call, ok := cs.(*ssa.Call); ok && call.Common().Value == ssa.Value(cmp) && inLoop(call.Block()) {
+			cmpCall = call
+		}
+	}
+	lastWins, advance := false, false
+	why := "no comparison of neighbouring elements in a loop"
+	if cmpCall != nil && len(cmpCall.Common().Args) == 2 {
+		var E ssa.Value
+		var j *ssa.Phi
+		for k, a := range cmpCall.Common().Args {
+			low, idx, ok := elemOf(a)
 			if !ok {
 				continue
 			}
-			ia, ok := st.Addr.(*ssa.IndexAddr)
-			if !ok || ia.X != ssa.Value(x) {
-				continue
-			}
-			// which branch of cmp?
-			for _, g := range guardsOf(b) {
-				cond, neg := normCond(g.If.Cond)
-				if call, ok := cond.(*ssa.Call); ok && call.Common().Value == ssa.Value(cmp) {
-					taken := (g.Succ == 0) != neg
-					if taken {
-						eqStore = st
-						// x[j] = x[i]: destination index is the phi j (second arg of cmp is x[j]), value is x[i] (first arg)
-						dst := ia.Index
-						var srcIdx ssa.Value
-						if u, ok := st.Val.(*ssa.UnOp); ok {
-							if ia2, ok := u.X.(*ssa.IndexAddr); ok && ia2.X == ssa.Value(x) {
-								srcIdx = ia2.Index
-							}
-						}
-						a0, a1 := idxOfElem(call.Common().Args[0], x), idxOfElem(call.Common().Args[1], x)
-						// the kept slot is the one with the smaller index (earlier), overwritten by the later element
-						if srcIdx != nil && ((dst == a1 && srcIdx == a0) || (dst == a0 && srcIdx == a1)) {
-							// later element = loop index i (the phi starting at 1)
-							if startsAt(srcIdx, 1) && startsAt(dst, 0) {
-								eqGuardOK = true
-							}
-						}
-					} else {
-						neStore = st
-					}
+			if ph, isPhi := idx.(*ssa.Phi); isPhi && low == 0 && startsAt(ph, 0) && j == nil {
+				j = ph
+				other := cmpCall.Common().Args[1-k]
+				if l2, i2, ok2 := elemOf(other); ok2 && ((l2 == 0 && startsAt(i2, 1)) || (l2 >= 1 && isRangeIdx(i2))) {
+					E = other
 				}
 			}
 		}
+		var iff *ssa.If
+		negated := false
+		if j != nil && E != nil {
+			if i := ifOf(cmpCall.Block()); i != nil {
+				cond, neg := normCond(i.Cond)
+				if cond == ssa.Value(cmpCall) {
+					iff, negated = i, neg
+				}
+			}
+		}
+		switch {
+		case j == nil || E == nil:
+			why = "the comparison is not between the current element and the kept element x[j]"
+		case iff == nil:
+			why = "the loop does not branch on the comparison"
+		default:
+			head := j.Block()
+			check := func(equal bool) bool {
+				succ := 0
+				if equal == negated {
+					succ = 1
+				}
+				okAll, n := true, 0
+				var dfs func(b *ssa.BasicBlock, path []*ssa.BasicBlock)
+				dfs = func(b *ssa.BasicBlock, path []*ssa.BasicBlock) {
+					if n > 64 {
+						return
+					}
+					if b == head || len(b.Succs) == 0 {
+						n++
+						// stores along the path
+						stored := false
+						for _, pb := range path[1:] {
+							for _, in := range pb.Instrs {
+								st, ok := in.(*ssa.Store)
+								if !ok {
+									continue
+								}
+								ia, ok := st.Addr.(*ssa.IndexAddr)
+								if !ok || ia.X != ssa.Value(x) {
+									continue
+								}
+								d := resolveAlong(ia.Index, path)
+								v := resolveAlong(st.Val, path)
+								goodD := d == ssa.Value(j)
+								if !equal {
+									bo, isB := d.(*ssa.BinOp)
+									one := int64(0)
+									if isB {
+										one, _ = constInt(bo.Y)
+									}
+									goodD = isB && bo.Op == token.ADD && bo.X == ssa.Value(j) && one == 1
+								}
+								if goodD && sameElem(v, E) {
+									stored = true
+								} else {
+									okAll = false
+								}
+							}
+						}
+						if !stored {
+							okAll = false
+						}
+						if b == head {
+							// the kept index after this iteration
+							full := append(append([]*ssa.BasicBlock(nil), path...), head)
+							nj := resolveAlong(j, full)
+							if equal {
+								if nj != ssa.Value(j) {
+									okAll = false
+								}
+							} else {
+								bo, isB := nj.(*ssa.BinOp)
+								one := int64(0)
+								if isB {
+									one, _ = constInt(bo.Y)
+								}
+								if !(isB && bo.Op == token.ADD && bo.X == ssa.Value(j) && one == 1) {
+									okAll = false
+								}
+							}
+						} else {
+							okAll = false // leaves the loop from inside the body
+						}
+						return
+					}
+					for _, pb := range path {
+						if pb == b {
+							return
+						}
+					}
+					for _, sc := range b.Succs {
+						dfs(sc, append(append([]*ssa.BasicBlock(nil), path...), b))
+					}
+				}
+				dfs(iff.Block().Succs[succ], []*ssa.BasicBlock{iff.Block()})
+				return okAll && n > 0
+			}
+			lastWins, advance = check(true), check(false)
+		}
 	}
-	r.Check(eqStore != nil && eqGuardOK, "R07.3", "dedupeSlice:last-wins", p.FuncPos(dd), "on equal keys the kept slot is overwritten with the later element", "dedupeSlice does not overwrite the kept slot with the LATER element of a run of equal keys: the first occurrence would win")
-	r.Check(neStore != nil, "R07.3", "dedupeSlice:advance", p.FuncPos(dd), "on a new key the element is moved to the next kept slot", "dedupeSlice does not keep elements with a new key")
+	_ = why
+	r.Check(lastWins, "R07.3", "dedupeSlice:last-wins", p.FuncPos(dd), "on equal keys the kept slot is overwritten with the later element", "dedupeSlice does not overwrite the kept slot with the LATER element of a run of equal keys: the first occurrence would win")
+	r.Check(advance, "R07.3", "dedupeSlice:advance", p.FuncPos(dd), "on a new key the element is moved to the next kept slot", "dedupeSlice does not keep elements with a new key")
 	// returns x[:j+1]
 	okRet := false
 	rets, _ := exitBlocks(dd)
